@@ -470,9 +470,11 @@ def aligned(run, p):
         for x in nodes:
             lab = None
             if isinstance(x, ast.Call) and isinstance(x.func, ast.Attribute) and x.func.attr in ('join', 'merge') and not isinstance(x.func.value, ast.Constant):
-                ids = {y.id for z in [x.func.value] + list(x.args) for y in ast.walk(z) if isinstance(y, ast.Name)} | \
-                      {y.attr for z in [x.func.value] + list(x.args) for y in ast.walk(z) if isinstance(y, ast.Attribute)}
-                if any(i == 'df' or i.endswith('_df') for i in ids):
+                # the receiver must be a frame (sep.join(df.columns) joins strings): a name or attribute called df / ..._df, or rows of one
+                recv = [x.func.value] + ([] if x.func.attr == 'join' else list(x.args))
+                ids = {y.id for z in recv for y in ast.walk(z) if isinstance(y, ast.Name)} | \
+                      {y.attr for z in recv for y in ast.walk(z) if isinstance(y, ast.Attribute)}
+                if any(i == 'df' or i.endswith('_df') for i in ids) and not any(isinstance(y, ast.Attribute) and y.attr in ('columns', 'str') for y in ast.walk(x.func.value)):
                     lab = x
             if isinstance(x, ast.Call) and norm(x.func) in ('pd.merge', 'pd.concat', 'pandas.merge', 'pandas.concat') and \
                     (norm(x.func).endswith('merge') or any(k.arg == 'axis' and isinstance(k.value, ast.Constant) and k.value.value in (1, 'columns') for k in x.keywords)):
